@@ -12,6 +12,13 @@ PROPS = {
   'C11': {'families': [('chess', 300, 12000)]},
   'C12': {'families': [('attacks', 3000, 200000), ('chess', 200, 8000)]},
   'C17': {'families': [('chess', 400, 24000)]},
+  'C07': {'families': [('go', 4000, 400000)]},
+  'C08': {'families': [('time', 5000, 1000000)]},
+  'C14': {'families': [('tt', 3000, 300000)]},
+  'C15': {'families': [('eval', 3000, 300000)]},
+  'C16': {'families': [('evalc', 1000, 60000), ('eval', 500, 20000)]},
+  'C18': {'families': [('see', 1500, 100000)]},
+  'C19': {'families': [('order', 1500, 100000)]},
 }
 
 TRUSTED_BASE = [
